@@ -107,10 +107,11 @@ class Interp(object):
                 return out
             res = []
             txt = unparse(node) if node is not None else v.tag
-            if not v.input and getattr(self, "int_sat", 2) > 2 and not getattr(self, "allow_guess", False):
-                # constant mode: every value comes from the literals the rule supplied; an unknown here means that something
-                # on the way is not modelled - no verdict, rather than a verdict built on a guess
-                raise Unsupported("constant evaluation depends on a value the interpreter does not know (%s) at %s: %s" % (
+            if not v.input and not getattr(self, "allow_guess", False):
+                # a value the interpreter does not know (an unmodelled library call, arithmetic on a saturated counter ...) decides
+                # a branch: no verdict, rather than a verdict built on a guess.  Only the explorations that report such paths as
+                # imprecise (exit 2) themselves set allow_guess.
+                raise Unsupported("the evaluation depends on a value the interpreter does not know (%s) at %s: %s" % (
                     v.tag, self.loc(node) if node is not None else "?", txt))
             for b in (True, False):
                 s2 = st.fork()
